@@ -270,7 +270,7 @@ DBUF_ASSUME = [
 ]
 
 
-COMP_TRACE = {'e2e': 'E2E_Trace', 'suffix': 'Suffix_Trace', 'config': 'Config_Trace', 'tworun': 'TwoRun_Trace', 'dbuf': 'DecoderBuf_Trace', 'dec': 'Decoder_Trace', 'parser': 'Parser_Trace', 'wrap': 'Wrap_Trace'}
+COMP_TRACE = {'bitset': 'Bitset_Trace', 'e2e': 'E2E_Trace', 'suffix': 'Suffix_Trace', 'config': 'Config_Trace', 'tworun': 'TwoRun_Trace', 'dbuf': 'DecoderBuf_Trace', 'dec': 'Decoder_Trace', 'parser': 'Parser_Trace', 'wrap': 'Wrap_Trace'}
 
 
 def replay(ctx, fam, path):
@@ -614,6 +614,44 @@ PARSER_ASSUME = [
     'configuration constants are read back from the parser (ParserConfig/BufferConfig), zero request fields mean defaults',
     'recorded streams are <= 600 bytes (<= 220 bytes and blocks <= 64 bytes where the cubic oracles of C11/C12 run): 32-bit position overflow and MiB windows are out of reach',
 ]
+
+
+def bitset_mutants(evs):
+    for i, e in enumerate(evs):
+        if e['op'] == 'insert' and len(e.get('members') or []) >= 2:
+            m = copy.deepcopy(evs)
+            m[i]['members'] = m[i]['members'][1:]
+            yield 'dropmember', m
+            m2 = copy.deepcopy(evs)
+            m2[i]['after'][0] = m2[i]['after'][0] + 1
+            yield 'wrongneighbour', m2
+            return
+
+
+def bitset_features(evs):
+    f = set()
+    cleared = False
+    for e in evs[1:]:
+        if e['op'] == 'clear':
+            cleared = True
+        if e['op'] == 'insert' and cleared and e.get('cap', 0) >= e.get('nwords', 0) > 1:
+            f.add('reuse_after_clear')
+        if e.get('nwords', 0) >= 3:
+            f.add('three_words')
+        if e['op'] == 'delete':
+            f.add('delete')
+    return f
+
+
+def run_bitset(ctx, fam):
+    t = ctx.thorough()
+    log('[%s] design model check (Bitset.tla: support/insert/delete/clear and the neighbour queries against set semantics) + transition cover' % ctx.prop)
+    hist = vlib.tlc_cover(ctx, 'Bitset.tla', 'Bitset_gen.cfg', limit=None if t else 1500, seed=ctx.seed)
+    probes = sorted({p + d for p in (0, 1, 63, 64, 127, 128, 200, 260) for d in (-1, 0, 1) if p + d >= 0})
+    scripts = [dict(tid='bitset-cover-%d' % i, comp='bitset', cfg=dict(probes=probes), ops=ops[1:], tags=['tlc-cover'])
+               for i, ops in enumerate(hist)]
+    scripts += vlib.go_gen(ctx, 'bitset', 1200 if t else 200, ctx.seed)
+    return finish(ctx, fam, scripts, 'Bitset_Trace', bitset_mutants, bitset_features)
 
 
 def fam_parser(rule, mix, design=None):
@@ -1127,7 +1165,10 @@ PROPS = {
     'C14': fam_parser('same recordings as C01 (10-30% nil blocks in a third of the scripts); rules C14.n, C14.empty_iff, and C14.block_after_skip = the round-trip equation for every block parsed after a skipped one', MIX_GENERAL),
     'C15': fam_parser('same recordings as C01 incl. probes (ReadAt/ByteAt at Off-2..Off+1 and end-2..end+1), Reset with caller slices of capacity len, len+3, len+7, len+8, len+20; rules C15.* (write_n, write_full_iff, readfrom_*, shrink_delta, reset_err, readat_*, byteat, no_panic)', MIX_GENERAL),
     'C19': fam_parser('recordings: run generator (every byte class incl. 0x00, runs of 32..432 bytes crossing block and buffer boundaries, WindowSize 1/2) + the C01 generators; + collision generator (hash parsers with 0..3 hash bits, repeats of 9..40 bytes); rules C19.right_maximal, C19.left_maximal (BHP, BDHP), C19.run_literals', dict(walks=70, go=[('parser-runs', 210), ('parser', 175), ('parser-collide', 150)])),
-    'C12': fam_parser('recordings: GSAP only, histories without Parse(nil), blocks <= 64 bytes, buffers <= 130 bytes, half of them with BufferSize <= WindowSize, several fills / Shrinks / Resets; rules C12.match_longest (every emitted match equals the brute-force longest previous match in the buffered data, clipped at the block end) and C12.literal_justified', dict(walks=0, go=[('parser-gsap', 260), ('parser-sa-ntl', 60)]), design=('GSAP.tla', 'GSAP_m.cfg', 'GSAP_T.cfg', 1500)),
+    'C12': dict(run=run_multi, trace_module=None, parts=[
+        dict(run=run_bitset, trace_module='Bitset_Trace', assumptions=['the verif-tagged VerifBitset hook forwards to the unexported bitset methods without adding behaviour'],
+             rule='the search set of GSAP on its own: every transition of Bitset.tla (insert / delete / clear over positions around the 64-bit word boundaries, incl. re-use of the backing array after clear and downward growth) + seeded longer histories run on the real bitset through the VerifBitset hook; rules C12.bitset_members, C12.bitset_neighbours (set semantics)'),
+        fam_parser('recordings: GSAP only, histories without Parse(nil), blocks <= 64 bytes, buffers <= 130 bytes, half of them with BufferSize <= WindowSize, several fills / Shrinks / Resets; rules C12.match_longest (every emitted match equals the brute-force longest previous match in the buffered data, clipped at the block end) and C12.literal_justified', dict(walks=0, go=[('parser-gsap', 260), ('parser-sa-ntl', 60)]), design=('GSAP.tla', 'GSAP_m.cfg', 'GSAP_T.cfg', 1500))]),
     'C11': fam_parser('recordings: OSAP only, flags 0 mostly, blocks <= 64 bytes, buffers <= 130 bytes, several blocks per fill (edge reuse), blocks after Shrink; rule C11.cost_optimal: BlockCost = OptCost (forward DP over literal and nearest-source match edges written in TLA+)', dict(walks=0, go=[('parser-osap', 170), ('parser-sa-ntl', 30)]), design=('OSAP.tla', 'OSAP_q.cfg', 'OSAP_T.cfg', 1200)),
     'C06': fam_dec('histories = random walks of Decoder.tla (API calls x writer fault schedule) + seeded Go-side histories with sizes around BufferSize-WindowSize / BufferSize, B < 2W, fault schedules and the retry protocol; C06 = no livelock / timeout event (no envelope action exists for them); liveness of the retry loops is model-checked (Terminates) on the design; non-trivial = distinct script with several flushes in one call, data larger than the free space, a refused or rejected block, or a writer fault'),
     'C07': dict(run=run_multi, trace_module=None, parts=[
